@@ -556,19 +556,21 @@ static void enumerate_c04(void)
 }
 
 /* ================================================================== C19: callback programs */
-#define NCBOPS 20
+#define NCBOPS 21
 static const char *cbop_name[NCBOPS + 3] = { "claim_del(exp)", "claim_del(nbf)", "claim_del(iss)", "claim_del(sub)", "claim_del(aud)", "claim_del(all)",
 	"claim_set(exp=future,replace)", "claim_set(nbf=past,replace)", "claim_set(iss=good,replace)", "claim_set(sub=good,replace)",
 	"claim_set(aud=good,replace)", "claim_merge(all good,replace)", "header_set(alg=none,replace)", "header_set(alg=HS256,replace)",
 	"header_del(alg)", "header_del(all)", "get(claims,alg)",
 	/* calls the library refuses (the refusal is the callback's business, not the verdict's) */
 	"claim_set(x,NULL)!, claim_set(exp|nbf|iss|sub|aud,<not UTF-8>,replace)!", "claim_set(empty name)!, header_set(NULL name)!", "claim_set(j, malformed JSON)!, header_set(JSON \"5\")!",
+	/* 255 harmless changes in a row: with one more operation the callback has changed the token 256 times */
+	"255 x claim_set(pad=i,replace)",
 	/* configuration edits: only in vetoing programs, and (the first) in accepting programs against a keyed baseline */
 	"config(key=HS,alg=HS256)", "config(key=HS)", "config(key=NULL,alg=none)" };
-#define NCBOPS_ALL 23
+#define NCBOPS_ALL 24
 static const char *cbop_class(int op)
 {
-	return op < 6 ? "claim_del" : op < 11 ? "claim_set" : op == 11 ? "claim_merge" : op < 14 ? "header_set" : op < 16 ? "header_del" : op == 16 ? "get" : op < 20 ? "refused_set" : "config";
+	return op < 6 ? "claim_del" : op < 11 ? "claim_set" : op == 11 ? "claim_merge" : op < 14 ? "header_set" : op < 16 ? "header_del" : op == 16 ? "get" : op < 20 ? "refused_set" : op == 20 ? "many_sets" : "config";
 }
 
 typedef struct {
@@ -639,12 +641,17 @@ static void run_cbop(jwt_t *jwt, jwt_config_t *cfg, int op)
 		break;
 	}
 	case 20:
-		cfg->key = jwks_item_get(hset, 0); cfg->alg = JWT_ALG_HS256;
+		for (int i = 0; i < 255; i++) {
+			jwt_set_SET_INT(&v, "pad", i); v.replace = 1; jwt_claim_set(jwt, &v);
+		}
 		break;
 	case 21:
-		cfg->key = jwks_item_get(hset, 0);
+		cfg->key = jwks_item_get(hset, 0); cfg->alg = JWT_ALG_HS256;
 		break;
 	case 22:
+		cfg->key = jwks_item_get(hset, 0);
+		break;
+	case 23:
 		cfg->key = NULL; cfg->alg = JWT_ALG_NONE;
 		break;
 	}
@@ -804,7 +811,7 @@ static void enumerate_c19(void)
 	static const int RET0[] = { 0 };
 	c19_programs(NCBOPS, vf_thorough ? 4 : 2, RET0, 1, -1);
 	/* ... and programs that start by selecting the key the baseline already has (keyed baseline only) */
-	c19_programs(NCBOPS, vf_thorough ? 2 : 1, RET0, 1, 20);
+	c19_programs(NCBOPS, vf_thorough ? 2 : 1, RET0, 1, 21);
 	/* vetoing programs: whatever the callback did to the token or to the configuration, verification fails */
 	static const int VETO[] = { 1, -1, 2, 256, INT_MIN };
 	c19_programs(NCBOPS_ALL, vf_thorough ? 3 : 2, VETO, 5, -1);
